@@ -92,6 +92,23 @@ type c09Step struct {
 	N       int      `json:"n,omitempty"`
 	Seed    uint64   `json:"seed,omitempty"`
 	MB      int      `json:"mb,omitempty"` // bomb size (inflated)
+	// resolve: the artifact the browser presents: 0 = a fixed sample; n>0 = a well-formed type-0x0004 artifact (44 bytes) with EndpointIndex n-1
+	ArtIdx int `json:"artifact_endpoint_index_plus1,omitempty"`
+}
+
+// c09Artifact renders the SAMLart value for a resolve step.
+func c09Artifact(st *c09Step) string {
+	if st.ArtIdx <= 0 {
+		return "AAQAAMFbLinlXaCM+FIxiDwGOLAy2T71gbpO7ZhNzAgEANlB90ECfpNEVLg="
+	}
+	idx := st.ArtIdx - 1
+	b := make([]byte, 44)
+	b[0], b[1] = 0x00, 0x04
+	b[2], b[3] = byte(idx>>8), byte(idx)
+	for i := 4; i < 44; i++ {
+		b[i] = byte(i * 7)
+	}
+	return base64.StdEncoding.EncodeToString(b)
 }
 
 // ---------------------------------------------------------------- panic capture
@@ -165,13 +182,17 @@ type c09Resp struct {
 	Chunks       int           // >0: deliver in this many chunks ...
 	Delay        time.Duration // ... pausing this long (bubble clock) before each
 	ClaimLen     int64         // >0: announced Content-Length (the body delivered is what Body/CutAt say, i.e. far shorter)
+	CloseErr     bool          // the whole body is delivered, then Close() reports an error
+	RedirectTo   string        // non-empty: 307 to this URL (the peer keeps redirecting to URLs it has not used before)
 }
 
 // c09Transport is the SimTransport: an http.RoundTripper routing to simulated peers.
 type c09Transport struct {
-	handler  func(req *http.Request, body []byte) *c09Resp
-	Requests int
-	Open     int // bodies handed out that were neither closed nor read to EOF/error
+	handler   func(req *http.Request, body []byte) *c09Resp
+	callStart int  // Requests at the start of the current API call
+	Runaway   bool // the current call issued more than 200 back-channel requests
+	Requests  int
+	Open      int // bodies handed out that were neither closed nor read to EOF/error
 }
 
 func (t *c09Transport) RoundTrip(req *http.Request) (*http.Response, error) {
@@ -181,7 +202,18 @@ func (t *c09Transport) RoundTrip(req *http.Request) (*http.Response, error) {
 		_ = req.Body.Close()
 	}
 	t.Requests++
+	if t.Requests-t.callStart > 200 {
+		// a caller that keeps issuing back-channel requests without bound (and without any simulated time passing)
+		// would spin the simulation forever: cut it off and report it
+		t.Runaway = true
+		return nil, errors.New("sim: more than 200 back-channel requests in one call")
+	}
 	r := t.handler(req, body)
+	if r.RedirectTo != "" {
+		h := http.Header{"Location": {r.RedirectTo}}
+		return &http.Response{Status: "307 Temporary Redirect", StatusCode: 307, Proto: "HTTP/1.1", ProtoMajor: 1, ProtoMinor: 1,
+			Header: h, Body: http.NoBody, ContentLength: 0, Request: req}, nil
+	}
 	if r.ConnErr {
 		return nil, errors.New("dial tcp 192.0.2.1:443: connect: connection refused")
 	}
@@ -300,6 +332,9 @@ func (b *c09Body) Read(p []byte) (int, error) {
 
 func (b *c09Body) Close() error {
 	b.release()
+	if b.r.CloseErr {
+		return errors.New("sim: connection reset while closing the response body")
+	}
 	return nil
 }
 
@@ -1077,7 +1112,7 @@ func c09Budget(k c09Knobs) int64 {
 
 // ---------------------------------------------------------------- part 1: back-channel fault sequences
 
-var c09ArtFaults = []string{"conn_err", "status", "empty", "trunc_err", "trunc_clean", "length_lie", "slow", "stall_headers", "stall_body",
+var c09ArtFaults = []string{"conn_err", "status", "empty", "trunc_err", "trunc_clean", "length_lie", "close_err", "redirect_chain", "slow", "stall_headers", "stall_body",
 	"garbage", "soap_fault", "wrong_envelope", "wrong_irt", "bad_status", "unsigned", "wrong_key", "good"}
 var c09MdFaults = []string{"conn_err", "status", "empty", "trunc_err", "trunc_clean", "slow", "stall_headers", "stall_body",
 	"garbage", "wrong_doc", "good"}
@@ -1222,6 +1257,10 @@ func c09BackResp(st *c09Step, payload []byte) *c09Resp {
 		r.CutAt, r.CutErr = len(payload)*st.Pm/1000, io.ErrUnexpectedEOF
 	case "trunc_clean":
 		r.CutAt = len(payload) * st.Pm / 1000
+	case "close_err":
+		r.CloseErr = true
+	case "redirect_chain":
+		r.RedirectTo = "hop" // the handler appends a counter: every hop is a URL not used before
 	case "length_lie":
 		// the peer announces far more than it delivers (1 GiB, 64 GiB or 2^62 bytes), then the connection dies
 		r.CutAt, r.CutErr = len(payload)*st.Pm/1000, io.ErrUnexpectedEOF
@@ -1260,9 +1299,15 @@ func c09ExecBack(p *Plan, k c09Knobs, res *Result) {
 		res.Extra[fmt.Sprintf("cov:%s:%s@%d", st.Kind, st.Fault, pos)]++
 		t0 := time.Now()
 		resolveID := ""
+		tr.callStart, tr.Runaway = tr.Requests, false
 		tr.handler = func(req *http.Request, body []byte) *c09Resp {
 			if req.URL.Path == "/elsewhere" {
 				return c09Plain([]byte(c09Garbage[1]))
+			}
+			if st.Fault == "redirect_chain" && st.Kind == "resolve" {
+				r := c09Plain(nil)
+				r.RedirectTo = fmt.Sprintf("%s?hop=%d", c09IdpArt, tr.Requests-tr.callStart)
+				return r
 			}
 			if st.Kind == "fetch" {
 				return c09BackResp(&st, c09MdPayload(&st))
@@ -1284,6 +1329,8 @@ func c09ExecBack(p *Plan, k c09Knobs, res *Result) {
 			expect = "ACCEPT"
 		case st.Fault == "slow" && total <= budget+100:
 			expect = "ANY"
+		case st.Fault == "close_err":
+			expect = "ANY" // the complete, genuine answer was received; whether a failed Close counts is the library's choice - but not both a result and an error
 		}
 		if st.Fault != "good" {
 			res.fire("backchannel:" + st.Fault)
@@ -1296,7 +1343,7 @@ func c09ExecBack(p *Plan, k c09Knobs, res *Result) {
 		var pan *c09Panic
 		var observed string
 		if st.Kind == "resolve" {
-			form := url.Values{"SAMLart": {"AAQAAMFbLinlXaCM+FIxiDwGOLAy2T71gbpO7ZhNzAgEANlB90ECfpNEVLg="}, "RelayState": {"rs"}}
+			form := url.Values{"SAMLart": {c09Artifact(&st)}, "RelayState": {"rs"}}
 			hr := httptest.NewRequest("POST", c09Acs, strings.NewReader(form.Encode())).WithContext(ctx)
 			hr.Header.Set("Content-Type", formCT)
 			_ = hr.ParseForm()
@@ -1308,6 +1355,11 @@ func c09ExecBack(p *Plan, k c09Knobs, res *Result) {
 			cancel()
 			synctest.Wait()
 			spent := time.Since(t0)
+			if tr.Runaway {
+				res.logf("step %d resolve fault=%s: the call kept issuing back-channel requests (%d) and had to be cut off", si, shape, tr.Requests-tr.callStart)
+				res.violate(si, "hang", "C09/hang/ParseResponse/backchannel-"+shape+"/unbounded-requests", "a bounded number of back-channel requests per resolution", fmt.Sprintf("> %d requests, still going", tr.Requests-tr.callStart-1), "")
+				return
+			}
 			if st.Fault == "length_lie" && pan == nil && grew > 256<<20 {
 				res.logf("step %d resolve fault=%s: allocated %d MB for a reply of a few hundred bytes", si, shape, grew>>20)
 				res.violate(si, "unbounded-allocation", "C09/alloc/ParseResponse/backchannel-"+shape, "allocation bounded by what was received", fmt.Sprintf("%d MB allocated", grew>>20), "the peer only announced that much")
@@ -1930,6 +1982,9 @@ func genTotality(g *Rng, tier string) *Plan {
 		n := 1 + g.Intn(4)
 		for i := 0; i < n; i++ {
 			st := c09Step{Kind: "resolve", Entry: "ParseResponse/artifact"}
+			if g.Bool(0.3) {
+				st.ArtIdx = 1 + Pick(g, 0, 1, 2, 3, 65535)
+			}
 			faults := c09ArtFaults
 			if g.Bool(0.3) {
 				st.Kind, st.Entry, faults = "fetch", "samlsp.FetchMetadata", c09MdFaults
